@@ -71,6 +71,8 @@ def run(check: Check):
       check.ob('R-SIB.exhaustive', mth, f'{ci.name}.{name}({", ".join(mth.positional_params)})', ok,
                f'interface has {len(af.positional_params)} positional parameters', nontrivial=False)
   _ranges(check, impls)
+  _none_tests(check, impls)
+  _cursors(check)
   _range_where(check)
   _sql(check)
   _keyerror(check)
@@ -117,6 +119,71 @@ def _ranges(check: Check, impls):
                      f'client ids are selected by the half-open range [start, stop): `{idt} '
                      f'{">=" if kind == "start" else "<"} {kind}` expected', node=x)
   check.floor('R-SIB.range', 'python range comparisons', n, 8)
+
+
+def _none_tests(check: Check, impls):
+  """Optional range bounds are tested with `is (not) None`, never by truthiness: b'' is a legal client id / bound."""
+  repo = check.repo
+  funcs = [repo.func(FD, 'intersect_slice_ranges')]
+  for ci in impls:
+    for name in ('slice', 'client_size', 'get_client', '_range_where', 'num_clients', 'client_ids', 'client_sizes', '_read_clients'):
+      mth = ci.methods.get(name)
+      if mth is not None:
+        funcs.append(mth)
+  n = 0
+  for fi in funcs:
+    opt = set()
+    for p in fi.params:
+      ann = fi.param_annotation(p)
+      if ann is not None and 'Optional' in txt(ann):
+        opt.add(p)
+    opt |= {'self._start', 'self._stop'}
+    tests = []
+    for x in ast.walk(fi.node):
+      if isinstance(x, (ast.If, ast.IfExp, ast.While)):
+        tests.append(x.test)
+      elif isinstance(x, ast.BoolOp):
+        tests.extend(x.values)
+      elif isinstance(x, ast.UnaryOp) and isinstance(x.op, ast.Not):
+        tests.append(x.operand)
+      elif isinstance(x, ast.comprehension):
+        tests.extend(x.ifs)
+    for t in tests:
+      if isinstance(t, (ast.Name, ast.Attribute)) and txt(t) in opt:
+        n += 1
+        check.ob('R-SIB.none-test', fi, f'truth test of {txt(t)}', False,
+                 f'`{txt(t)}` is Optional: testing it by truthiness treats the legal bound b\'\' (an empty range) like "no bound" '
+                 f'and the view is enlarged; use `is not None`', node=t)
+    nn = sum(1 for x in ast.walk(fi.node) if isinstance(x, ast.Compare) and isinstance(x.ops[0], (ast.Is, ast.IsNot)) and txt(x.left) in opt)
+    if nn:
+      check.ob('R-SIB.none-test', fi, f'{nn} `is None` tests on optional bounds', True, 'bounds are compared with None explicitly',
+               nontrivial=False)
+
+
+def _cursors(check: Check):
+  """Every query of a view gets its own cursor: a cursor stored on the object is iteration state shared by all passes."""
+  repo = check.repo
+  ci = repo.cls(SQL, 'SQLiteFederatedData')
+  shared = set()
+  for mth in ci.methods.values():
+    for x in ast.walk(mth.node):
+      if isinstance(x, ast.Assign) and isinstance(x.targets[0], ast.Attribute) and txt(x.targets[0].value) == 'self' and isinstance(
+          x.value, ast.Call) and isinstance(x.value.func, ast.Attribute) and x.value.func.attr in ('cursor', 'execute'):
+        shared.add(x.targets[0].attr)
+  n_exec = 0
+  for name, mth in ci.methods.items():
+    for x in ast.walk(mth.node):
+      if isinstance(x, ast.Call) and isinstance(x.func, ast.Attribute) and x.func.attr in ('execute', 'executemany', 'fetchone', 'fetchall', 'fetchmany'):
+        recv = x.func.value
+        if x.func.attr.startswith('execute'):
+          n_exec += 1
+        if isinstance(recv, ast.Attribute) and txt(recv.value) == 'self' and recv.attr in shared:
+          check.ob('R-ORDER.cursor', mth, txt(x)[:70], False,
+                   f'self.{recv.attr} is one cursor shared by every pass over this view: two iterations that are alive at the same '
+                   f'time (nested loops, zip, a shuffled pass and a plain pass) steal each other\'s rows', node=x)
+  check.ob('R-ORDER.cursor', ci, f'{n_exec} queries, cursors stored on self: {sorted(shared)}', not shared,
+           'every query runs on a fresh cursor (connection.execute), so concurrent passes are independent')
+  check.floor('R-ORDER.cursor', 'queries', n_exec, 6)
 
 
 def _range_where(check: Check):
